@@ -1409,3 +1409,128 @@ Proof.
     rewrite IH, andb_true_r. rewrite <- Hc, <- Hc1. now apply snap_wf_inv. }
   eapply G; [apply inv_init; auto|reflexivity].
 Qed.
+
+(* ================================================================ Clean: the order of the three phases *)
+Lemma s_evict_sub order : forall kc space, sub_blobs kc (fst (s_evict order kc space)).
+Proof.
+  induction order as [|k t IH]; intros kc space; cbn [s_evict].
+  - destruct (s_size kc + space <=? k_cap kc); apply sub_blobs_refl.
+  - destruct (s_size kc + space <=? k_cap kc); [apply sub_blobs_refl|].
+    eapply sub_blobs_trans; [apply sub_blobs_drop|apply IH].
+Qed.
+
+Lemma s_clean_loop_sub target : forall keys kc, sub_blobs kc (s_clean_loop kc target keys).
+Proof.
+  induction keys as [|k t IH]; intros kc; cbn [s_clean_loop]; [apply sub_blobs_refl|].
+  destruct (s_size kc <=? target); [apply sub_blobs_refl|].
+  eapply sub_blobs_trans; [apply sub_blobs_drop|apply IH].
+Qed.
+
+Lemma assoc_drop_blob k kc k' :
+  assoc k' (k_blobs (drop_blob k kc)) = if k' =? k then None else assoc k' (k_blobs kc).
+Proof.
+  destruct (assoc k (k_blobs kc)) as [b|] eqn:E.
+  - rewrite (drop_blob_blobs _ _ _ E). destruct (N.eqb_spec k' k) as [->|Hne].
+    + apply assoc_remove_eq.
+    + now apply assoc_remove_neq.
+  - rewrite (drop_blob_absent _ _ E). destruct (N.eqb_spec k' k) as [->|]; auto.
+Qed.
+
+(* a refused admission has evicted the whole queue *)
+Lemma s_evict_false_all order : forall kc space kc1,
+  s_evict order kc space = (kc1, false) -> forall k, In k order -> assoc k (k_blobs kc1) = None.
+Proof.
+  induction order as [|k0 t IH]; intros kc space kc1 H k Hin; [destruct Hin|].
+  cbn [s_evict] in H. destruct (s_size kc + space <=? k_cap kc); [discriminate H|].
+  destruct Hin as [->|Hin]; [|eapply IH; eauto].
+  destruct (assoc k (k_blobs kc1)) as [b|] eqn:E; auto. exfalso.
+  pose proof (s_evict_sub t (drop_blob k kc) space) as Hs. rewrite H in Hs. cbn [fst] in Hs.
+  apply Hs in E. rewrite assoc_drop_blob, N.eqb_refl in E. discriminate E.
+Qed.
+
+(* the deletion loops remove a prefix of the keys they are given *)
+Lemma s_clean_prefix target : forall keys kc,
+  exists n, forall k,
+    assoc k (k_blobs (s_clean_loop kc target keys)) =
+    if memN k (firstn n keys) then None else assoc k (k_blobs kc).
+Proof.
+  induction keys as [|k0 t IH]; intros kc; cbn [s_clean_loop].
+  - exists 0%nat. reflexivity.
+  - destruct (s_size kc <=? target).
+    + exists 0%nat. reflexivity.
+    + destruct (IH (drop_blob k0 kc)) as [n Hn]. exists (S n). intros k. rewrite Hn.
+      cbn [firstn memN existsb]. fold (memN k (firstn n t)). rewrite assoc_drop_blob.
+      destruct (k =? k0); cbn [orb]; auto. now destruct (memN k (firstn n t)).
+Qed.
+
+Lemma order_legal_in kc order k b : order_legal kc order = true -> assoc k (k_blobs kc) = Some b -> In k order.
+Proof.
+  unfold order_legal. rewrite forallb_forall. intros H Hb.
+  assert (Hin : exists b0, In (k, b0) (k_blobs kc)).
+  { clear H. induction (k_blobs kc) as [|[k0 b0] t IH]; cbn in Hb; [discriminate|].
+    destruct (N.eqb_spec k0 k); [subst; exists b0; now left|]. destruct (IH Hb) as [b1 H1]. exists b1. now right. }
+  destruct Hin as [b0 Hin]. specialize (H _ Hin). cbn in H. now apply memN_In.
+Qed.
+
+Theorem clean_order_spec c s pct respect order : Inv c s ->
+  ((pct <? 0) || (100 <=? pct))%Z = false ->
+  snd (sstep Disk s (Clean pct respect order)) <> OBadOracle ->
+  let s' := fst (sstep Disk s (Clean pct respect order)) in
+  forall k b, assoc k (k_blobs (s_core s)) = Some b -> assoc k (k_blobs (s_core s')) = None ->
+    (* phase 1: complete, not banned blobs (in LRU order, by evict_victims) *)
+    b_complete b && negb (b_banned b) = true \/
+    (* later phases only once no evictable blob is left; banned blobs only if asked to and only
+       once every blob that is not banned has been deleted *)
+    ((forall k2, evictableb (s_core s') k2 = false) /\
+     (b_banned b = false \/
+      (respect = false /\ forall k2 b2, assoc k2 (k_blobs (s_core s')) = Some b2 -> b_banned b2 = true))).
+Proof.
+  intros HI Hpct Hout s' k b Hb Hgone. subst s'. unfold sstep in *. cbn [plain_step] in *. rewrite Hpct in *.
+  set (target := clean_target (k_cap (s_core s)) pct) in *.
+  pose proof (evict_victims c s (k_cap (s_core s) - target) HI k b Hb) as HV. cbn zeta in HV.
+  pose proof (s_evict_sub (evict_order s) (s_core s) (k_cap (s_core s) - target)) as Hsub1.
+  destruct (s_evict (evict_order s) (s_core s) (k_cap (s_core s) - target)) as [kc1 ok] eqn:Eev. cbn [fst] in *.
+  destruct ok.
+  { cbn [fst s_core] in Hgone. left. destruct (HV Hgone) as [He _]. unfold evictableb in He. now rewrite Hb in He. }
+  destruct (order_legal kc1 order) eqn:OL; [|cbn in Hout; congruence]. cbn [fst s_core] in *.
+  set (keys := clean_keys kc1 respect order) in *.
+  destruct (assoc k (k_blobs kc1)) as [b1|] eqn:E1.
+  2:{ left. destruct (HV eq_refl) as [He _]. unfold evictableb in He. now rewrite Hb in He. }
+  assert (b1 = b) by (apply Hsub1 in E1; congruence). subst b1.
+  pose proof (s_clean_loop_sub target keys kc1) as Hsub2.
+  right. split.
+  - intros k2. destruct (evictableb (s_clean_loop kc1 target keys) k2) eqn:Ev; auto. exfalso.
+    unfold evictableb in Ev. destruct (assoc k2 (k_blobs (s_clean_loop kc1 target keys))) as [b2|] eqn:E2; [|discriminate].
+    apply Hsub2 in E2. pose proof E2 as E2'. apply Hsub1 in E2'.
+    assert (Hin : In k2 (evict_order s)).
+    { pose proof (inv_queue _ _ HI) as HQ. rewrite (inv_queue_eq _ _ HI) in HQ. apply (q_mem _ _ HQ).
+      unfold evictableb. now rewrite E2'. }
+    rewrite (s_evict_false_all _ _ _ _ Eev k2 Hin) in E2. discriminate.
+  - destruct (b_banned b) eqn:Ebn; [right|now left].
+    destruct (s_clean_prefix target keys kc1) as [n Hn].
+    assert (Hk : In k (firstn n keys)).
+    { specialize (Hn k). rewrite Hgone, E1 in Hn. apply memN_In.
+      match type of Hn with context [if ?m then _ else _] => destruct m end; [reflexivity|discriminate Hn]. }
+    (* keys = A ++ B *)
+    set (present := filter (fun k0 => match assoc k0 (k_blobs kc1) with Some _ => true | None => false end) order) in *.
+    set (bannedf := fun k0 => match assoc k0 (k_blobs kc1) with Some b0 => b_banned b0 | None => false end) in *.
+    set (A := filter (fun k0 => negb (bannedf k0)) present) in *.
+    set (B := if respect then [] else filter bannedf present) in *.
+    assert (Ekeys : keys = A ++ B) by reflexivity.
+    assert (HkA : ~ In k A).
+    { unfold A. rewrite filter_In. intros [_ H]. unfold bannedf in H. rewrite E1, Ebn in H. discriminate. }
+    rewrite Ekeys, firstn_app in Hk. apply in_app_iff in Hk.
+    destruct Hk as [Hk|Hk]; [exfalso; apply HkA; eapply in_firstn_in; eauto|].
+    assert (Hlen : (length A < n)%nat).
+    { destruct (Nat.ltb_spec (length A) n); auto. replace (n - length A)%nat with 0%nat in Hk by lia. destruct Hk. }
+    split.
+    + destruct respect; auto. unfold B in Hk. now destruct (n - length A)%nat.
+    + intros k2 b2 E2. destruct (b_banned b2) eqn:Eb2; auto. exfalso.
+      pose proof (Hn k2) as Hn2. rewrite E2 in Hn2. pose proof (Hsub2 _ _ E2) as E2'.
+      assert (HinA : In k2 A).
+      { unfold A, present. rewrite !filter_In. unfold bannedf. rewrite E2', Eb2. repeat split; auto.
+        eapply order_legal_in; eauto. }
+      assert (Hm : memN k2 (firstn n keys) = true).
+      { apply memN_In. rewrite Ekeys, firstn_app. apply in_app_iff. left. rewrite firstn_all2 by lia. exact HinA. }
+      unfold key in *. rewrite Hm in Hn2. discriminate Hn2.
+Qed.
